@@ -342,9 +342,14 @@ def coll_suite(tier, cfgs, extra="", fams=("member",), need=()):
             for t, bk, src, args, nd in shapes:
                 if fam == "compose" and src != "fixed":
                     continue
+                if cfg in ("dbg", "dbg16", "chk") and "--bs 288" in args and src == "fixed":
+                    # with debug fences around every node a 288 byte block is used up before an array needs its own reservation
+                    args = args.replace("--bs 288", "--bs 416") + " --max_states 250000"
                 if "--arena" not in args:
                     args += " --arena 2048"
                 args = _shrink(args, extra, tier)
+                if _mv(extra):
+                    nd = ()  # two live allocations do not exhaust a block: the move jobs are about the moves, growth is covered by the other jobs
                 a = f"--type {t} --buckets {bk} --src {src} {f} {args} {extra}".strip()
                 out.append(J("h_coll", cfg, a, name=f"coll/{t}/{bk}/{src}[{cfg}] {f} {args} {extra}".strip(), need=tuple(nd) + tuple(need), moves=_mv(extra)))
     return out
@@ -555,7 +560,10 @@ def check_C15(prop, tier, only):
     ej = [J("h_lowlevel", cfg, "--mode leak", name=f"lowlevel-leak[{cfg}]") for cfg in c]
     # the process-wide balance of the stateless allocators is shared by all threads: every schedule of two/three threads that
     # allocate and release through the same allocator type must end with the balance it started with (scheduler + atomic shim of C13)
-    ej += [J("h_tsafe_ll", cfg, "--ll", name=f"lowlevel-leak-balance-threads[{cfg}]") for cfg in (("dbg",) if tier == "quick" else ("dbg", "rwd"))]
+    for cfg in (("dbg",) if tier == "quick" else ("dbg", "rwd")):
+        j = J("h_tsafe_ll", cfg, "--ll", name=f"lowlevel-leak-balance-threads[{cfg}]")
+        j["only_tags"] = ["leak-balance"]  # the other oracles of that harness (shared new-handler, locking) speak about C13
+        ej.append(j)
     return run_explore_check(prop, tier, jobs, only, enum_jobs=ej, note=NOTE_BFS +
                              "shared leak balance under threads: all schedules (preemption-bounded, every atomic operation of the low-level allocator TUs a scheduling point) of "
                              "threads using one stateless allocator type; "
@@ -685,6 +693,9 @@ def _run_enum(prop, tier, jobs, budget=None, harness_kw=None):
             errors.append(f"{label}: {e}")
         seen_fp = set()
         for v in js.get("violations", []):
+            if j.get("only_tags") and v["tag"] not in j["only_tags"]:
+                vlib.log(f"note: {label}: [{v['tag']}] belongs to another property: {v['detail'][:200]}")
+                continue
             fp = f"{j['h']}|{v['tag']}"
             rec = {"property": prop, "kind": "enum", "harness": j["h"], "cfg": j["cfg"], "args": j["args"], "tag": v["tag"],
                    "detail": v["detail"], "input": v.get("input"), "fingerprint": fp}
